@@ -109,8 +109,9 @@ type treeRec struct {
 	Links [][]string          `json:"links"`
 	PjRaw [][]json.RawMessage `json:"pj"`
 
-	pj   map[string]pjRec
-	root string // set when materialised
+	pj     map[string]pjRec
+	pjText map[string]string // "<dir>/package.json" -> text
+	root   string            // set when materialised
 	once sync.Once
 	err  error
 }
@@ -206,12 +207,8 @@ func (t *treeRec) materialise(base string) error {
 				return
 			}
 			content := fileContent(f)
-			if filepath.Base(f) == "package.json" {
-				if pj, ok := t.pj[filepath.Dir(f)]; ok {
-					content = pj.render()
-				} else if pj, ok := t.pj[strings.TrimSuffix(f, "/package.json")]; ok {
-					content = pj.render()
-				}
+			if text, ok := t.pjText[f]; ok {
+				content = text
 			}
 			if err := os.WriteFile(p, []byte(content), 0644); err != nil {
 				t.err = err
@@ -389,7 +386,7 @@ type runState struct {
 	mu     sync.Mutex
 }
 
-var reLabelLit = regexp.MustCompile(`"([A-Z]+(?:\.[A-Za-z0-9_-]+)+)"`)
+var reLabelCall = regexp.MustCompile(`\bL\((?:"([^"]+)"|IF [^"]*THEN "([^"]+)" ELSE "([^"]+)")`)
 
 func Run(r *core.Run) {
 	st := &runState{r: r, trees: map[int]*treeRec{}}
@@ -398,6 +395,11 @@ func Run(r *core.Run) {
 	r.Assume("Node 20.20 is the reference implementation of Node's algorithm; its --conditions flag and esbuild's Conditions option carry the same extra conditions")
 	r.Assume("esbuild is configured as Node: Platform node, MainFields [main], Conditions set explicitly (no automatic \"module\" condition), default resolve extensions (the trees contain only .js/.mjs/.cjs/.json and extensionless files)")
 	r.Assume("Resolve.tla models lower-case ASCII names without percent-encoding; builtin modules, URL specifiers, trailing-slash specifiers and folder mappings are outside the family (the last two are excluded by the property)")
+
+	if r.Replay != "" {
+		st.replay()
+		return
+	}
 
 	// 1. TLC: enumerate and check the model
 	cfg := "ResolveMC.quick.cfg"
@@ -427,6 +429,7 @@ func Run(r *core.Run) {
 					return
 				}
 				t.pj = map[string]pjRec{}
+				t.pjText = map[string]string{}
 				for _, pair := range t.PjRaw {
 					var dir string
 					var pj pjRec
@@ -435,6 +438,7 @@ func Run(r *core.Run) {
 						return
 					}
 					t.pj[dir] = pj
+					t.pjText[dir+"/package.json"] = pj.render()
 				}
 				st.trees[t.Ti] = t
 			case "q":
@@ -625,8 +629,8 @@ func (st *runState) selectQuestions(budget int) []*question {
 	for _, q := range st.qs {
 		t := st.trees[q.Ti]
 		var pjs []string
-		for d, p := range t.pj {
-			pjs = append(pjs, d+"="+p.render())
+		for f, text := range t.pjText {
+			pjs = append(pjs, f+"="+text)
 		}
 		sort.Strings(pjs)
 		q.id = core.Hash([]interface{}{pjs, len(t.Files), len(t.Links), q.Imp, q.Spec, q.Kind, condKey(q.Conds)})
@@ -762,9 +766,9 @@ func (st *runState) describe(t *treeRec, q *question, a esbAnswer) map[string]in
 		"family": t.Fam, "importer": q.Imp, "specifier": q.Spec, "kind": q.Kind, "conditions": condKey(q.Conds),
 		"spec_answer": q.T + ":" + q.V, "node": nodeAns, "esbuild": esb, "branches": q.B,
 	}
-	for dir, name := range map[string]string{"/node_modules/p": "p_package_json", "": "app_package_json"} {
-		if pj, ok := t.pj[dir]; ok {
-			m[name] = pj.render()
+	for file, name := range map[string]string{"/node_modules/p/package.json": "p_package_json", "/package.json": "app_package_json"} {
+		if text, ok := t.pjText[file]; ok {
+			m[name] = text
 		}
 	}
 	return m
@@ -792,10 +796,10 @@ func (st *runState) compare(t *treeRec, q *question, a esbAnswer, via string) st
 	if !specAgrees {
 		if via == "plugin-resolve" {
 			if os.Getenv("C11_DEBUG") != "" {
-				fmt.Fprintf(os.Stderr, "DRIFT-DEBUG fam=%s %s %q from %s conds=[%s] spec=%s:%s node=%s%s p=%s app=%s\n", t.Fam, q.Kind, q.Spec, q.Imp, condKey(q.Conds), q.T, q.V, t.rel(q.node.Path), q.node.Code, t.pj["/node_modules/p"].render(), t.pj[""].render())
+				fmt.Fprintf(os.Stderr, "DRIFT-DEBUG fam=%s %s %q from %s conds=[%s] spec=%s:%s node=%s%s p=%s app=%s\n", t.Fam, q.Kind, q.Spec, q.Imp, condKey(q.Conds), q.T, q.V, t.rel(q.node.Path), q.node.Code, t.pjText["/node_modules/p/package.json"], t.pjText["/package.json"])
 			}
 			r.Drift("tree %d (%s) %s %q from %s conds=[%s]: spec %s:%s, Node %s%s  p=%s app=%s", t.Ti, t.Fam, q.Kind, q.Spec, q.Imp,
-				condKey(q.Conds), q.T, q.V, t.rel(q.node.Path), q.node.Code, t.pj["/node_modules/p"].render(), t.pj[""].render())
+				condKey(q.Conds), q.T, q.V, t.rel(q.node.Path), q.node.Code, t.pjText["/node_modules/p/package.json"], t.pjText["/package.json"])
 		}
 		return "drift"
 	}
@@ -814,11 +818,11 @@ func (st *runState) compare(t *treeRec, q *question, a esbAnswer, via string) st
 	}
 	detail := func() map[string]interface{} {
 		files := map[string]string{}
-		for dir, pj := range t.pj {
-			files[dir+"/package.json"] = pj.render()
+		for f, text := range t.pjText {
+			files[f] = text
 		}
 		return map[string]interface{}{
-			"spec": "Resolve.tla", "scenario": q, "expected": q.T + ":" + q.V, "native": q.node,
+			"spec": "Resolve.tla", "scenario": q, "expected": q.T + ":" + q.V, "native": q.node, "via": via, "family": t.Fam,
 			"observed": map[string]interface{}{"path": t.rel(a.Path), "error": a.Err},
 			"package_json": files, "files": t.Files, "links": t.Links,
 			"config": map[string]interface{}{"platform": "node", "mainFields": []string{"main"}, "conditions": q.Conds, "bundle": true},
@@ -845,6 +849,9 @@ func (st *runState) compare(t *treeRec, q *question, a esbAnswer, via string) st
 		return "agree-reject"
 	}
 	if !mapCaused {
+		if os.Getenv("C11_DEBUG") != "" && via == "plugin-resolve" {
+			fmt.Fprintf(os.Stderr, "LENIENT-DEBUG fam=%s %s %q from %s node=%s esbuild=%s labels=%v\n", t.Fam, q.Kind, q.Spec, q.Imp, q.node.Code, t.rel(esbPath), q.B)
+		}
 		return "esbuild-lenient"
 	}
 	what := fmt.Sprintf("Node rejects %s %q from %s because of the exports/imports map (%s) but esbuild (%s) resolves it to %s",
@@ -892,8 +899,16 @@ func (st *runState) tlcCoverage(output string) {
 		if idx := strings.Index(line, `\*`); idx >= 0 {
 			line = line[:idx]
 		}
-		for _, m := range reLabelLit.FindAllStringSubmatchIndex(line, -1) {
-			at[pos{i + 1, m[0] + 1}] = line[m[2]:m[3]]
+		// a branch is a call L("label", ...) or L(IF c THEN "a" ELSE "b", ...);
+		// TLC reports the span of the call, which starts at the L
+		for _, m := range reLabelCall.FindAllStringSubmatchIndex(line, -1) {
+			label := ""
+			if m[2] >= 0 {
+				label = line[m[2]:m[3]]
+			} else {
+				label = line[m[4]:m[5]] + "|" + line[m[6]:m[7]]
+			}
+			at[pos{i + 1, m[0] + 1}] = label
 		}
 	}
 	re := regexp.MustCompile(`^\s*\|*line (\d+), col (\d+) to line (\d+), col (\d+) of module Resolve: (\d+)`)
@@ -913,4 +928,60 @@ func (st *runState) tlcCoverage(output string) {
 	if len(counts) > 0 {
 		st.r.Set("branches_tlc_coverage", counts)
 	}
+}
+
+// replay re-runs the one question of a replay file written by a violation:
+// the tree is rebuilt from the file, Node and esbuild are asked again.
+func (st *runState) replay() {
+	r := st.r
+	data, err := os.ReadFile(r.Replay)
+	if err != nil {
+		r.Infra("replay: %v", err)
+		return
+	}
+	var rec struct {
+		Detail struct {
+			Scenario    question          `json:"scenario"`
+			Via         string            `json:"via"`
+			Family      string            `json:"family"`
+			PackageJSON map[string]string `json:"package_json"`
+			Files       []string          `json:"files"`
+			Links       [][]string        `json:"links"`
+		} `json:"detail"`
+	}
+	if err := json.Unmarshal(data, &rec); err != nil || rec.Detail.Scenario.Spec == "" {
+		r.Infra("replay: cannot decode %s: %v", r.Replay, err)
+		return
+	}
+	d := rec.Detail
+	t := &treeRec{Ti: d.Scenario.Ti, Fam: d.Family, Files: d.Files, Links: d.Links, pjText: d.PackageJSON, pj: map[string]pjRec{}}
+	st.trees[t.Ti] = t
+	base, err := filepath.EvalSymlinks(r.Scratch)
+	if err != nil || t.materialise(filepath.Join(base, "trees")) != nil {
+		r.Infra("replay: cannot materialise the tree: %v %v", err, t.err)
+		return
+	}
+	q := &d.Scenario
+	q.id = "replay"
+	st.askNode([]*question{q})
+	if !q.hasNode {
+		return
+	}
+	var a esbAnswer
+	if d.Via == "metafile" {
+		a, err = askMetafile(t, q, 0)
+	} else {
+		err = askEsbuild(t, q.Conds, []*question{q})
+		a = q.esb
+		d.Via = "plugin-resolve"
+	}
+	if err != nil {
+		r.Infra("replay: %v", err)
+		return
+	}
+	verdict := st.compare(t, q, a, d.Via)
+	r.Case(q.id, true)
+	r.Sample(st.describe(t, q, a))
+	r.AddStates(1, 1)
+	r.Logf("replay of %s: %s", r.Replay, verdict)
 }
